@@ -46,6 +46,13 @@ rl.on('line',l=>{
     const r=ev(emitted);
     let p; try{ p=JSON.stringify(JSON.parse(emitted)); }catch(e){ p='!parse'; }
     if(!r.ok) out.push('BAD error:'+r.e); else if(JSON.stringify(r.v)!==p) out.push('BAD value'); else out.push('OK');
+  } else if(kind==='P'){
+    // a whole rendered script that defines a and b: node's values of a and b against the specification's
+    const dec2=new TextDecoder('utf-8',{ignoreBOM:true});   // keep a leading U+FEFF of a value
+    const un2=h=>h==='-'?'':dec2.decode(Buffer.from(h,'hex'));
+    const src=un2(f[1]), wa=un2(f[2]), wb=un2(f[3]);
+    let r; try { r={ok:true,v:(new Function(src+'\n;return [a,b]'))()}; } catch(e){ r={ok:false,e:String(e)}; }
+    if(!r.ok) out.push('BAD error:'+r.e); else if(r.v[0]!==wa) out.push('BAD a'); else if(r.v[1]!==wb) out.push('BAD b'); else out.push('OK');
   } else out.push('?');
 });
 rl.on('close',()=>{console.log(out.join('\n'))});
@@ -122,6 +129,16 @@ func nodeOracle(c *core.Ctx) {
 		}
 		c.Extra["node_spec_bodies_accepted"] = fmt.Sprintf("%d of %d unescaped (body, quote) pairs are well-formed by the specification and were evaluated by node", accepted, 3*len(raws))
 	}
+	// whole scripts: the sweep templates (var a = <literal, perhaps holding a hole>; var b = <hole>) as rendered by the parser's
+	// parts and the runtime's escapers, evaluated by node; a and b must be the values the specification's lexer gives the two
+	// string tokens of the TEMPLATE (the literal's value around the Go string; the Go string)
+	nScripts := 0
+	for _, ns := range nodeScripts {
+		fmt.Fprintf(&in, "P %s %s %s\n", hx(ns.src), hx(ns.a), hx(ns.b))
+		items = append(items, item{"script " + q(ns.src) + " from template " + q(ns.tpl) + ": specification says a = " + q(ns.a) + ", b = " + q(ns.b)})
+		nScripts++
+	}
+	c.Extra["node_whole_scripts"] = nScripts
 	cmd := exec.Command("timeout", "900", "node", "-e", nodeScript)
 	cmd.Stdin = &in
 	var errb bytes.Buffer
@@ -154,6 +171,6 @@ func nodeOracle(c *core.Ctx) {
 	if bad > 0 {
 		c.Extra["node_disagreements"] = all
 	}
-	c.Extra["node_oracle"] = map[string]any{"strings_x3_literal_kinds": len(strs), "values": nVals, "specification_bodies": len(items) - len(strs) - nVals, "disagreements": bad, "first": first}
+	c.Extra["node_oracle"] = map[string]any{"strings_x3_literal_kinds": len(strs), "values": nVals, "specification_bodies": len(items) - len(strs) - nVals - nScripts, "whole_scripts": nScripts, "disagreements": bad, "first": first}
 	c.Oblige("contract", "node evaluates the emitted JavaScript to the intended values (supporting evidence)", bad == 0, first)
 }
